@@ -58,7 +58,7 @@ func readImports(r Reader, cat Catalog) ([]SharedSymbolTable, error) {
 			return nil, err
 		}
 
-		if val != nil && val.LocalSID == 3 {
+		if val != nil && (val.LocalSID == 3 || (val.Text != nil && *val.Text == "$ion_symbol_table")) {
 			// Special case that imports the current local symbol table.
 			if r.SymbolTable() == nil || r.SymbolTable() == V1SystemSymbolTable {
 				return nil, nil
